@@ -22,8 +22,10 @@ def judge_layout(req, impl, model, spec):
             "key": req, "cats": ["eol-" + cat, "decorated" if "(decorated 1)" in req else "plain"]}
 
 
-THEOREM_MODULES = ["Hcl.Theorems.C11", "Hcl.Theorems.C11Fuel", "Hcl.Proofs.ParseStmts", "Hcl.Tie.Lexer", "Hcl.Tie.Grammar", "Hcl.Tie.Preamble", "Hcl.Theorems.C11Layout", "Hcl.Theorems.C11Parens", "Hcl.Proofs.ParseStmtsSound"]
-THEOREMS = {"Hcl.Proofs.ParseStmtsSound": ["Parser.parse_sound", "Parser.parse_iff_D", "Parser.parseExpr_iff_D", "Parser.parseStmts_iff_DS", "Parser.parseProgram_iff_DS"],
+THEOREM_MODULES = ["Hcl.Theorems.C11", "Hcl.Theorems.C11Fuel", "Hcl.Proofs.ParseStmts", "Hcl.Tie.Lexer", "Hcl.Tie.Grammar", "Hcl.Tie.Preamble", "Hcl.Theorems.C11Layout", "Hcl.Theorems.C11Parens", "Hcl.Proofs.ParseStmtsSound", "Hcl.Tie.PinsLexer", "Hcl.Tie.PinsGrammar"]
+THEOREMS = {"Hcl.Tie.PinsGrammar": ["Tie.PinsGrammar.pinGrammarFile"],
+            "Hcl.Tie.PinsLexer": ["Tie.PinsLexer.pinLexerNext", "Tie.PinsLexer.pinLexerChooseToken", "Tie.PinsLexer.pinLexerGetWhile", "Tie.PinsLexer.pinLexerInternalNext", "Tie.PinsLexer.pinLexerResolveIdentifier"],
+            "Hcl.Proofs.ParseStmtsSound": ["Parser.parse_sound", "Parser.parse_iff_D", "Parser.parseExpr_iff_D", "Parser.parseStmts_iff_DS", "Parser.parseProgram_iff_DS"],
             "Hcl.Theorems.C11Parens": ["C11_parser_complete", "C11_parens_anywhere", "C11_fully_parenthesised_form", "C11_layout_at_reached_place", "Parser.parse_ppFull", "Parser.parse_ppMin", "Parser.ppMin_ppFull_same"],
             "Hcl.Theorems.C11Layout": ["C11_spans_do_not_steer_expressions", "C11_spans_do_not_steer_statements", "C11_same_tokens_same_meaning", "C11_skipped_text", "C11_layout_in_front", "C11_layout_after_token", "C11_blank_between_tokens", "C11_block_comment_after_token", "C11_hash_comment_after_token", "C11_line_ending_style", "C11_parse_extends", "C11_redundant_parens_simple", "C11_redundant_parens", "C11_redundant_parens_statement"],
             "Hcl.Proofs.ParseStmts": ["Parser.parseStmts_fuel_independent", "Parser.parseProgram_fuel_independent", "Parser.parseProgram_lex_error", "Parser.parseE_eq_none_iff", "Parser.parseStmts_ne_nil"],
